@@ -312,26 +312,27 @@ def run(tier, replay_path=None):
     from concurrent.futures import ThreadPoolExecutor
     import time
     from ..common import log
+    try:
+        from . import c25conc
+    except ImportError:
+        c25conc = None
     only = set(filter(None, os.environ.get("VERIF_C25_ONLY", "").split(",")))      # developer aid: dfs,rnd,stress,abs,conc
     on = lambda ph: not only or ph in only
     t0 = time.time()
     with ThreadPoolExecutor(4) as ex:
         fa = ex.submit(abstract_model, res, wd) if on("abs") else None
+        fc = ex.submit(c25conc.run, res, wd, drv, tier) if c25conc and on("conc") else None
         f1 = ex.submit(coop_systematic, res, wd, drv, tier) if on("dfs") else None
         f2 = ex.submit(coop_random, res, wd, drv, tier) if on("rnd") else None
         jobs = (f1.result() if f1 else []) + (f2.result() if f2 else [])
+        log("C25: cooperative runs %.0fs" % (time.time() - t0))
+        jobs += fc.result() if fc else []
         if fa:
             fa.result()
-    log("C25: cooperative runs %.0fs" % (time.time() - t0)); t0 = time.time()
+    log("C25: cooperative runs and BTreeConc %.0fs" % (time.time() - t0)); t0 = time.time()
     if on("stress"):
         jobs += stress(res, wd, drv, tier)          # real threads: not while the cooperative runs occupy the cores
     log("C25: stress runs %.0fs" % (time.time() - t0)); t0 = time.time()
     validate(res, wd, "MCT_C25", jobs, PID)
     log("C25: trace validation %.0fs" % (time.time() - t0))
-    try:
-        from . import c25conc
-    except ImportError:
-        c25conc = None
-    if c25conc and on("conc"):
-        c25conc.run(res, wd, drv, tier)
     return finish(res, "model_checking", assumptions=ASSUMPTIONS)
